@@ -471,6 +471,18 @@ func errorMetaComplete(c *core.Ctx) {
 				if at < 0 {
 					return
 				}
+				// a response rejected for its HTTP status has no trailing metadata to add: the headers are all there is
+				non200 := false
+				for _, f := range s.Facts {
+					if l, op, r, ok := astx.CompareOp(f.Expr); ok && astx.IsFieldNamed(info, l, "StatusCode") {
+						if v, isC := astx.ConstInt(info, r); isC && v == 200 && (op == token.NEQ) == f.Pol {
+							non200 = true
+						}
+					}
+				}
+				if non200 {
+					return
+				}
 				merged := false
 				for _, st := range s.Steps[at+1:] {
 					for _, call := range astx.Calls(st) {
